@@ -75,15 +75,74 @@ def write_replay(pid, seed, kind, h, detail):
     return path
 
 
+def inside_quantifier(h, prop, il, ml):
+    """A property whose quantifier is "within the limits and the documented preconditions" makes no claim from the
+    first call that leaves them on: neither the comparison with the model nor the oracle looks beyond it (what the code
+    does out there may change without the property being touched).  C07 and the Hex/Label properties keep everything."""
+    if not prop.stay_in_limits:
+        return il, ml, None
+    lim = gen.first_outside_limits(h)
+    if lim is None:
+        return il, ml, None
+    return il[:lim], ml[:lim], lim
+
+
+def well_formed(ops):
+    """every handle / image an op uses has been created by an earlier op (shrinking must not invent histories that
+    only 'fail' because a handle is missing)"""
+    hs, imgs = set(), set()
+    for o in ops:
+        t = o.split()
+        if not t or t[0].startswith("#"):
+            continue
+        k = t[0]
+        if k.startswith(("HEX", "LABEL")):
+            continue
+        try:
+            if k == "NEW":
+                hs.add(t[1])
+            elif k == "CLONE":
+                if t[1] not in hs:
+                    return False
+                hs.add(t[2])
+            elif k == "SLICE":
+                if t[1] not in hs:
+                    return False
+                hs.add(t[3])
+            elif k == "MERGE":
+                if t[1] not in hs or t[2] not in hs:
+                    return False
+            elif k == "SAVE":
+                if t[1] not in hs:
+                    return False
+                imgs.add(t[2])
+            elif k == "LOADRAW":
+                hs.add(t[2])
+            elif k in ("LOAD", "LOADCUT", "LOADFLIP", "LOADCUTS", "CUTSAMPLE"):
+                if t[1] not in imgs:
+                    return False
+                tgt = {"LOAD": 2, "LOADCUT": 3, "LOADFLIP": 4}.get(k)
+                if tgt is not None:
+                    hs.add(t[tgt])
+            elif len(t) > 1 and t[1] not in hs:
+                return False
+        except IndexError:
+            return False
+    return True
+
+
 def run_one(h, prop):
     """runs one history on both sides -> (cmp, finding, ilines, mlines)"""
     impl, model, problems, spec = engine.run_histories([h], timeout=120, shards=1, want_spec=prop.needs_spec)
     il, ml = impl.get(h.hid, []), model.get(h.hid, [])
+    il_full = il
+    il, ml, _ = inside_quantifier(h, prop, il, ml)
     prop.spec_lines.update(spec)
     prop.model_lines.update(model)
-    cmp_ = engine.compare_history(h, ml, il, prop.in_projection)
+    cmp_ = engine.compare_history(h, ml, il, prop.in_projection, strict_image=getattr(prop, 'strict_image', False))
     problems = [p for p in problems if p["kind"] == "impl"]
-    finding = prop.oracle(h, il) if not problems else {"reason": "implementation run did not finish", "index": len(il)}
+    finding = (prop.oracle(h, il_full if prop.oracle_beyond_limits else il) if not problems
+               else {"reason": "implementation run did not finish", "index": len(il)})
     return cmp_, finding, il, ml
 
 
@@ -117,6 +176,8 @@ def shrink(h, prop, want):
             return False
         budget -= 1
         cand = History(h.hid, h.n, cand_ops)
+        if not well_formed(cand_ops):
+            return False
         if prop.stay_in_limits and was_inside and gen.first_outside_limits(cand) is not None:
             return False
         cmp_, finding, _, _ = run_one(cand, prop)
@@ -230,13 +291,17 @@ def main():
                                  "impl": "<no output: crash or time-out>" if il is None else "..."})
             stats["diverge"] += 1
             continue
-        cmp_ = engine.compare_history(h, ml, il, prop.in_projection)
+        il_full = il
+        il, ml, lim = inside_quantifier(h, prop, il, ml)
+        if lim is not None:
+            stats["cut_at_limit"] = stats.get("cut_at_limit", 0) + 1
+        cmp_ = engine.compare_history(h, ml, il, prop.in_projection, strict_image=getattr(prop, 'strict_image', False))
         stats[cmp_["status"]] += 1
         stats["compared_calls"] += cmp_.get("compared", 0)
         stats["abs_only"] += cmp_.get("abs_only", 0)
         if cmp_["status"] in ("diverge", "outoffuel") and first_div is None:
             first_div = (h, cmp_)
-        finding = prop.oracle(h, il)
+        finding = prop.oracle(h, il_full if prop.oracle_beyond_limits else il)
         if finding is not None:
             kf = prop.known_finding(h, il, finding)
             if kf:
